@@ -10,6 +10,7 @@ import (
 	"verif/harness/cs"
 	"verif/harness/gen"
 	"verif/harness/model"
+	"verif/harness/run"
 )
 
 // W is a weighted operation kind.
@@ -175,7 +176,26 @@ func prefixRelated(a, b string) bool {
 	return a == b || len(a) < len(b) && b[:len(a)+1] == a+"." || len(b) < len(a) && a[:len(b)+1] == b+"."
 }
 
-func (p *Profile) updater(t *rapid.T, bulk bool) *cs.Updater {
+// updField prefers a field that is currently indexed in some collection: index maintenance
+// on update is where stale entries come from.
+func (p *Profile) updField(t *rapid.T, s *Session) string {
+	if s != nil && rapid.IntRange(0, 2).Draw(t, "upd-hot") != 0 {
+		var hot []string
+		for _, n := range s.M.CollNames() {
+			for _, f := range s.M.Colls[n].IndexNames() {
+				if f != "_id" && f != "u" {
+					hot = append(hot, f)
+				}
+			}
+		}
+		if len(hot) > 0 {
+			return rapid.SampledFrom(hot).Draw(t, "updfield-hot")
+		}
+	}
+	return rapid.SampledFrom(updFields).Draw(t, "updfield")
+}
+
+func (p *Profile) updater(t *rapid.T, s *Session, bulk bool) *cs.Updater {
 	kinds := []string{"set", "set", "inplace", "inplace", "setmany", "ident"}
 	if bulk {
 		kinds = append(kinds, "delete")
@@ -184,7 +204,7 @@ func (p *Profile) updater(t *rapid.T, bulk bool) *cs.Updater {
 	u := &cs.Updater{Kind: k}
 	switch k {
 	case "set", "inplace":
-		u.Field = rapid.SampledFrom(updFields).Draw(t, "updfield")
+		u.Field = p.updField(t, s)
 		u.Value = cs.V{X: p.updValue(t)}
 		if p.IdRewrite && rapid.IntRange(0, 3).Draw(t, "idrw") == 0 {
 			u.Field = "_id"
@@ -215,11 +235,11 @@ func (p *Profile) updater(t *rapid.T, bulk bool) *cs.Updater {
 	return u
 }
 
-func (p *Profile) updMap(t *rapid.T) map[string]cs.V {
+func (p *Profile) updMap(t *rapid.T, s *Session) map[string]cs.V {
 	m := map[string]cs.V{}
 	n := rapid.IntRange(1, 2).Draw(t, "nupd")
 	for i := 0; i < n; i++ {
-		f := rapid.SampledFrom(updFields).Draw(t, "updfield")
+		f := p.updField(t, s)
 		ok := true
 		for g := range m {
 			if prefixRelated(f, g) {
@@ -279,6 +299,25 @@ func (p *Profile) Draw(t *rapid.T, s *Session) cs.Op {
 		return cs.Op{Kind: kind, Coll: p.liveColl(t, s)}
 	case "listcolls", "close", "reopen":
 		return cs.Op{Kind: kind}
+	case "biginsert":
+		// a batch of more than a thousand documents, possibly with an offending document late in it
+		n := rapid.SampledFrom([]int{1001, 1100, 2500}).Draw(t, "bign")
+		g := &cs.GenSpec{First: 100000 + 5000*len(s.Ops), N: n, Mul: 1, Mod: 97}
+		if s.Backend != run.Bbolt {
+			// on the in-memory badger store of the harness (8 MiB memtable, i.e. a budget of about
+			// 1.2 MiB per transaction) this batch does not fit one transaction: badger must refuse
+			// it as a whole ("Txn is too big"), never apply a part of it
+			g.N, g.Pad = 2500, 700
+			n = g.N
+		}
+		// always with an offender, so that the batch is rejected and the state stays small (large
+		// successful batches are the business of C03 and C05)
+		if rapid.Bool().Draw(t, "bigdup") {
+			g.DupAt = rapid.SampledFrom([]int{1, 1000, n - 1}).Draw(t, "dupat")
+		} else {
+			g.BadAt = rapid.SampledFrom([]int{1, 1000, n - 1}).Draw(t, "badat")
+		}
+		return cs.Op{Kind: "geninsert", Coll: p.liveColl(t, s), Gen: g}
 	case "storm":
 		return cs.Op{Kind: kind, Coll: p.anyColl(t)}
 	case "insert", "insertone", "save":
@@ -349,7 +388,7 @@ func (p *Profile) Draw(t *rapid.T, s *Session) cs.Op {
 	case "updatebyid":
 		coll := p.liveColl(t, s)
 		c := s.M.Colls[coll]
-		return cs.Op{Kind: kind, Coll: coll, Id: p.someId(t, s, c, 10), Upd: p.updater(t, false)}
+		return cs.Op{Kind: kind, Coll: coll, Id: p.someId(t, s, c, 10), Upd: p.updater(t, s, false)}
 	case "deletebyid":
 		coll := p.liveColl(t, s)
 		c := s.M.Colls[coll]
@@ -360,10 +399,10 @@ func (p *Profile) Draw(t *rapid.T, s *Session) cs.Op {
 		return cs.Op{Kind: kind, Coll: coll, Id: p.someId(t, s, c, 30)}
 	case "update":
 		coll := p.liveColl(t, s)
-		return cs.Op{Kind: kind, Q: p.bulkQuery(t, s, coll), UpdMap: p.updMap(t)}
+		return cs.Op{Kind: kind, Q: p.bulkQuery(t, s, coll), UpdMap: p.updMap(t, s)}
 	case "updatefunc":
 		coll := p.liveColl(t, s)
-		return cs.Op{Kind: kind, Q: p.bulkQuery(t, s, coll), Upd: p.updater(t, true)}
+		return cs.Op{Kind: kind, Q: p.bulkQuery(t, s, coll), Upd: p.updater(t, s, true)}
 	case "delete":
 		coll := p.liveColl(t, s)
 		return cs.Op{Kind: kind, Q: p.bulkQuery(t, s, coll)}
